@@ -1528,7 +1528,7 @@ impl<'a> SGen<'a> {
     }
 }
 
-const RUN_FAILS: &[&str] = &["(1 + ja);", "[1, 2][5];", "int(\"x\");", "lengte(1);", "(!5);", "[\"a\", (2.5 + 1)];", "\"abc\"[7];", "[1, 2][-5];", "\"abc\"[-7];", "(nee || \"abc\");", "(string(5) < 1);", "([2.5] * 2);"];
+const RUN_FAILS: &[&str] = &["(1 + ja);", "[1, 2][5];", "int(\"x\");", "lengte(1);", "(!5);", "[\"a\", (2.5 + 1)];", "\"abc\"[7];", "[1, 2][-5];", "\"abc\"[-7];", "(nee || \"abc\");", "(string(5) < 1);", "([2.5] * 2);", "(1 / 0);", "(7 % 0);"];
 const PARSE_FAILS: &[&str] = &["stel = 1", "(1 + ", "[1, 2", "als { }", "1 +", "stel q 5", "zolang ja", "{ 1; ", "stel q = \"abc", "1 2 )"];
 
 impl<'a> SGen<'a> {
